@@ -462,7 +462,83 @@ def job_variants(module, base_index, k, shard, nshards):
     return acc
 
 
+# ---------------------------------------------------------------------------
+# repetition: one repeatable construct n = 1..12 times (distinct labels), everything else minimal - behaviour that only changes
+# from the 3rd / 4th / 10th element on
+# ---------------------------------------------------------------------------
+REPEATABLE = ['steps', 'background-steps', 'scenarios', 'rule-scenarios', 'rules', 'examples-tables', 'example-rows', 'header-cells', 'table-rows',
+              'tags-on-line', 'tag-lines', 'description-lines', 'doc-lines', 'comments', 'outlines-same-headers', 'mixed-arguments']
+
+
+def repetition_documents(max_n=12):
+    s = M.step
+    TL = M.tagline
+    for what in REPEATABLE:
+        for n in range(1, max_n + 1):
+            r = range(n)
+            roles = ['given', 'when', 'then', 'and', 'but']
+            if what == 'steps':
+                f = M.feature('f', [M.scenario('s', [s('t%d' % i, role=roles[i % 5]) for i in r])])
+            elif what == 'background-steps':
+                f = M.feature('f', [M.background('', [s('b%d' % i, role=roles[(i + 3) % 5]) for i in r]), M.scenario('s', [s('own', role='and')]),
+                                    M.scenario('o <a>', [s('x <a>', role='but')], [M.examples('', [['a'], ['1']])], outline=True)])
+            elif what == 'scenarios':
+                f = M.feature('f', [M.scenario('s%d' % i, [s('g%d' % i)], tags=[TL(['@s%d' % i])]) for i in r])
+            elif what == 'rule-scenarios':
+                f = M.feature('f', [M.background('', [s('fb')]), M.rule('r', [M.background('', [s('rb', role='and')])] + [M.scenario('s%d' % i, [s('g%d' % i, role=roles[(i + 1) % 5])]) for i in r], tags=[TL(['@r'])])])
+            elif what == 'rules':
+                f = M.feature('f', [M.rule('r%d' % i, ([M.background('', [s('b%d' % i)])] if i % 2 else []) + [M.scenario('s%d' % i, [s('g%d' % i, role='and')])], tags=[TL(['@r%d' % i])] if i % 3 else []) for i in r], tags=[TL(['@f'])])
+            elif what == 'examples-tables':
+                f = M.feature('f', [M.scenario('o <a>', [s('x <a>')], [M.examples('e%d' % i, [['a'], ['v%d' % i]], tags=[TL(['@e%d' % i])]) for i in r], outline=True)])
+            elif what == 'example-rows':
+                f = M.feature('f', [M.scenario('o <a> <b>', [s('x <a>', arg=M.table([['<b>']]))], [M.examples('e', [['a', 'b']] + [['v%d' % i, 'w%d' % i] for i in r])], outline=True)])
+            elif what == 'header-cells':
+                f = M.feature('f', [M.scenario('o ' + ' '.join('<h%d>' % i for i in r), [s('x ' + ''.join('<h%d>' % i for i in reversed(r)))],
+                                               [M.examples('e', [['h%d' % i for i in r], ['v%d' % i for i in r]])], outline=True)])
+            elif what == 'table-rows':
+                f = M.feature('f', [M.scenario('s', [s('g', arg=M.table([['c%d' % i, 'd%d' % i] for i in r])), s('h', role='when', arg=M.table([['only']]))])])
+            elif what == 'tags-on-line':
+                f = M.feature('f', [M.scenario('s', [s('g')], tags=[TL(['@t%d' % i for i in r])])], tags=[TL(['@f%d' % i for i in r])])
+            elif what == 'tag-lines':
+                f = M.feature('f', [M.scenario('o <a>', [s('g <a>')], [M.examples('e', [['a'], ['1']], tags=[TL(['@e%d' % i]) for i in r])], tags=[TL(['@t%d' % i]) for i in r], outline=True)])
+            elif what == 'description-lines':
+                f = M.feature('f', [M.scenario('s', [s('g')], desc=[T('    line %d' % i) if i % 3 else B('') for i in r] + [T('    last')])], desc=[T('  f line %d' % i) for i in r])
+            elif what == 'doc-lines':
+                f = M.feature('f', [M.scenario('s', [s('g', arg=M.doc(['l%d' % i if i % 4 else '' for i in r])), s('after', role='and')])])
+            elif what == 'comments':
+                f = M.feature('f', [M.scenario('s', [s('g', pre=[C('    # c%d' % i) for i in r])], pre=[C('# top %d' % i) for i in r])])
+            elif what == 'outlines-same-headers':
+                f = M.feature('f', [M.scenario('o%d <a>' % i, [s('x%d <a>' % i)], [M.examples('e', [['a'], ['v%d' % i]])], outline=True) for i in r])
+            else:   # mixed-arguments: doc strings and tables alternating over the steps of a background and a scenario
+                def arg(i):
+                    return M.doc(['d%d <a>' % i], media='m%d' % i if i % 2 else '') if i % 3 == 0 else M.table([['t%d' % i, '<a>']]) if i % 3 == 1 else None
+                f = M.feature('f', [M.background('', [s('b%d' % i, arg=arg(i)) for i in r]),
+                                    M.scenario('o <a>', [s('s%d <a>' % i, role='and', arg=arg(i + 1)) for i in r], [M.examples('e', [['a'], ['1'], ['2']])], outline=True)])
+            yield (what, n), f
+
+
+@worker
+def job_repetition(module, what_index):
+    import importlib
+    mod = importlib.import_module(module)
+    acc = Acc()
+    last = None
+    for (what, n), f in repetition_documents():
+        if what != REPEATABLE[what_index]:
+            continue
+        text, exp, r = M.render(f)
+        if not M.roles_ok(r):
+            acc.counters['models_discarded_role_mismatch'] += 1
+            continue
+        mod.check_model(text, exp, r, acc, {'kind': 'text', 'text': text, 'family': 'repetition', 'what': what, 'n': n})
+        last = text
+    if last is not None:
+        acc.sample({'family': 'repetition of ' + REPEATABLE[what_index], 'text': last[:400]})
+    return acc
+
+
 def run_families(ctx, module, n_quick, n_thorough, k2_bases_quick):
+    ctx.level('one construct repeated 1..12 times', [job_repetition.job(module, i) for i in range(len(REPEATABLE))])
     ns = 16
     N = ctx.pick(n_quick, n_thorough)
     ctx.level('structure N<=%d' % N, [job_structure.job(module, N, s, 192) for s in range(192)])
